@@ -84,6 +84,27 @@ def unwrapped(a):
 from mtc10_other import moved_function      # used to be defined here; now lives in another module and is re-imported
 
 
+class _OldHome:
+    def meth(self, x):
+        return x
+
+
+class NewHome:
+    meth = _OldHome.meth          # the method was kept under a new class; its own qualified name still says _OldHome.meth ...
+
+
+del _OldHome                      # ... and that class is gone
+
+
+class _Lazy:
+    """A proxy that answers every attribute with another proxy (a lazy import, a mock)."""
+    def __getattr__(self, name):
+        return _Lazy()
+
+
+now_proxy = _Lazy()               # a name that used to be a traced function and is now bound to such a proxy
+
+
 now_closure = outer()             # a name that used to be a traced function and is now bound to a function made by another function
 
 
@@ -168,6 +189,10 @@ def row_for(kind, mod, n=0):
     if kind == "td_field_class_removed":
         return (mod, "ok1", '{"a": {"module": "monkeytype.typing", "qualname": "DUMMY_NAME", "is_typed_dict": true, "elem_types": '
                             '{"sku": %s, "coupon": %s}}}' % (t, cls_json(mod, "GoneClass")), t, None)
+    if kind == "alias_of_removed":
+        return (mod, "NewHome.meth", '{"x": %s}' % t, t, None)
+    if kind == "now_proxy":
+        return (mod, "now_proxy", '{"a": %s}' % t, t, None)
     if kind == "now_closure":
         return (mod, "now_closure", '{"x": %s}' % t, t, None)
     if kind == "prop_getter_nonfunction":
@@ -187,7 +212,8 @@ KINDS = ["valid", "valid2", "valid_method", "renamed_param", "function_removed",
          "class_now_nontype", "class_now_nontype_ret", "class_module_removed_ret", "arg_class_removed_2",
          "arg_module_removed_name_prefix", "dunder_removed", "dunder_removed_2", "elem_class_now_nontype", "elem_class_removed",
          "elem_class_now_nontype_ret", "nowraps", "now_closure", "prop_getter_nonfunction",
-         "ret_unexported_builtin", "arg_unexported_builtin", "moved_function", "td_field_class_removed"]
+         "ret_unexported_builtin", "arg_unexported_builtin", "moved_function", "td_field_class_removed",
+         "alias_of_removed", "now_proxy"]
 
 _W = {}
 
@@ -429,7 +455,8 @@ def gen_cases(tier, seed):
     n0 = len(cases)
     for ks in (["moved_function"], ["moved_function", "function_removed"], ["arg_class_removed", "moved_function", "now_class"],
                ["moved_function", "valid"], ["valid2", "moved_function", "return_class_removed"],
-               ["td_field_class_removed"], ["td_field_class_removed", "valid"], ["ret_unexported_builtin", "valid2"], ["arg_unexported_builtin"]):
+               ["td_field_class_removed"], ["td_field_class_removed", "valid"], ["ret_unexported_builtin", "valid2"], ["arg_unexported_builtin"],
+               ["alias_of_removed"], ["alias_of_removed", "valid"], ["now_proxy"], ["valid2", "now_proxy"]):
         for cmd in ("stub", "apply"):
             for verbose in (False, True):
                 cases.append({"kinds": ks, "cmd": cmd, "verbose": verbose})
@@ -476,8 +503,8 @@ def main(pid, tier, seed, replay=None):
         for clause in v.get("viol", []):
             run.violation({"clause": clause, "cmd": rec["cmd"], "crashed": rec["crashed"], "has_nowraps": "nowraps" in rec["kinds"],
                            **({"name_now_bound_to_builtin": True} if {"now_builtin", "now_bound_builtin"} & set(rec["kinds"]) else {}),
-                           **({"name_now_bound_to": sorted({"now_closure", "prop_getter_nonfunction"} & set(rec["kinds"]))}
-                              if {"now_closure", "prop_getter_nonfunction"} & set(rec["kinds"]) else {})},
+                           **({"name_now_bound_to": sorted({"now_closure", "prop_getter_nonfunction", "alias_of_removed", "now_proxy"} & set(rec["kinds"]))}
+                              if {"now_closure", "prop_getter_nonfunction", "alias_of_removed", "now_proxy"} & set(rec["kinds"]) else {})},
                           {k: case_by[v["tid"]][k] for k in case_by[v["tid"]] if k != "tid"})
     extended = None
     if not replay:
